@@ -57,44 +57,49 @@ def check_execute(ctx: Ctx) -> None:
     run = rules.self_calls(f, "_execute_monitored")
     ctx.need(len(run) == 1, "BaseDiscipline.execute: _execute_monitored call not found")
     rn = cfg.node_of(run[0])
+
+    def is_cache_test(n, exact=False) -> bool:
+        if cfg.kind[n] != "test":
+            return False
+        lits = conj_literals(cfg.ast[n].test)
+        hit = [1 for p, e in lits if p and norm_stmt(e) in ("self.cache is not None", "self.cache")]
+        return bool(hit) and (len(lits) == 1 or not exact)
+
+    cache_false = {cfg.branch[(n, False)] for n in cfg.nodes(lambda n: is_cache_test(n, exact=True)) if (n, False) in cfg.branch}
     look = rules.self_calls(f, "__can_load_cache", "BaseDiscipline")
-    ctx.need(len(look) == 1, "BaseDiscipline.execute: __can_load_cache call not found")
-    ln = cfg.node_of(look[0])
-    ctx.need(cfg.kind[ln] == "test", "execute: the cache lookup is not the test of an if")
-    # the lookup happens before the run whenever there is a cache
-    cache_tests = [n for n in cfg.nodes(lambda n: cfg.kind[n] == "test") if norm_stmt(cfg.ast[n].test) in ("self.cache is not None", "self.cache")]
-    ctx.need(len(cache_tests) == 2, "execute: the two `self.cache is not None` tests (lookup side, store side) were not found")
-    first_ct, second_ct = sorted(cache_tests, key=lambda n: cfg.ast[n].lineno)
-    ok = cfg.under_branch(ln, first_ct, True) and cfg.dominates(first_ct, rn) and not cfg.reachable(rn, ln)
-    ctx.ob("5.1-lookup-first", con, ok, "with a cache, the inputs must be looked up before the discipline runs", node=look[0])
-    ok = cfg.must_pass(cfg.branch[(first_ct, True)], {ln}, rn)
-    ctx.ob("5.1-lookup-first", con, ok, "a path with a cache reaches the run without having looked the inputs up", node=look[0], stmt="every cached path passes the lookup")
-    hit = cfg.branch[(ln, True)]
-    ok = not cfg.reachable(hit, rn) and cfg.reachable(hit, cfg.exit)
-    ctx.ob("5.1-hit-returns", con, ok, "on a cache hit the discipline body must not run", node=look[0], stmt="hit path returns without _execute_monitored")
-    ok = look[0].args and dotted(look[0].args[0]) == "input_data"
-    ctx.ob("5.1-lookup-first", con, bool(ok), "the lookup must use the prepared input data", node=look[0], stmt="lookup(input_data)")
+    ok = len(look) == 1 and cfg.kind[cfg.node_of(look[0])] == "test"
+    ctx.ob("5.1-lookup-first", con, ok, "with a cache, the inputs must be looked up (self.__can_load_cache) before the discipline runs", node=(look or [f])[0], stmt="cache lookup present")
+    if ok:
+        ln = cfg.node_of(look[0])
+        ok = cfg.dominates(ln, rn) or cfg.must_pass(cfg.entry, {ln} | cache_false, rn)
+        ok = ok and not cfg.reachable(rn, ln) and any(cfg.under_branch(ln, n, True) for n in cfg.nodes(is_cache_test))
+        ctx.ob("5.1-lookup-first", con, ok, "a path with a cache reaches the run without having looked the inputs up", node=look[0], stmt="every cached path passes the lookup before the run")
+        hit = cfg.branch[(ln, True)]
+        ok = not cfg.reachable(hit, rn) and cfg.reachable(hit, cfg.exit)
+        ctx.ob("5.1-hit-returns", con, ok, "on a cache hit the discipline body must not run", node=look[0], stmt="hit path returns without _execute_monitored")
+        ok = look[0].args and dotted(look[0].args[0]) == "input_data"
+        ctx.ob("5.1-lookup-first", con, bool(ok), "the lookup must use the prepared input data", node=look[0], stmt="lookup(input_data)")
     # pristine copy
     pc = [s for s in stmts_of(f) if isinstance(s, ast.Assign) and isinstance(s.value, ast.Call) and last_attr(s.value) in ("__create_input_data_for_cache", "_BaseDiscipline__create_input_data_for_cache")]
-    ctx.need(len(pc) == 1, "execute: pristine input copy not found")
-    pv = dotted(pc[0].targets[0])
-    pn = cfg.node_of(pc[0])
+    ctx.ob("5.1-pristine", con, len(pc) == 1, "a pristine copy of the inputs must be kept for the cache", node=(pc or [f])[0], stmt="pristine copy present")
+    pv = dotted(pc[0].targets[0]) if pc else None
     init = [c for c in walk_body(f) if isinstance(c, ast.Call) and norm_stmt(c.func) == "self.io.initialize"]
     ctx.need(len(init) == 1, "execute: self.io.initialize call not found")
     inn = cfg.node_of(init[0])
-    ok = cfg.reachable(pn, inn) and not cfg.reachable(inn, pn) and not cfg.reachable(rn, pn) and cfg.under_branch(pn, first_ct, True) and cfg.must_pass(cfg.branch[(ln, False)], {pn}, rn)
-    ctx.ob("5.1-pristine", con, ok, "the copy of the inputs kept for the cache must be taken before io.initialize/the run can change them (in-place modified or self-coupled inputs would otherwise be stored)", node=pc[0])
-    ok = pc[0].value.args and dotted(pc[0].value.args[0]) == "input_data"
-    ctx.ob("5.1-pristine", con, bool(ok), "the pristine copy must be made from the prepared input data", node=pc[0], stmt="copy of input_data")
+    if pc:
+        pn = cfg.node_of(pc[0])
+        ok = cfg.reachable(pn, inn) and not cfg.reachable(inn, pn) and not cfg.reachable(rn, pn) and cfg.must_pass(cfg.entry, {pn} | cache_false | ({cfg.branch[(cfg.node_of(look[0]), True)]} if look else set()), inn)
+        ctx.ob("5.1-pristine", con, ok, "the copy of the inputs kept for the cache must be taken before io.initialize/the run can change them (in-place modified or self-coupled inputs would otherwise be stored)", node=pc[0])
+        ok = pc[0].value.args and dotted(pc[0].value.args[0]) == "input_data"
+        ctx.ob("5.1-pristine", con, bool(ok), "the pristine copy must be made from the prepared input data", node=pc[0], stmt="copy of input_data")
     st = rules.self_calls(f, "_store_cache")
-    ctx.need(len(st) == 1, "execute: _store_cache call not found")
-    sn = cfg.node_of(st[0])
-    ok = st[0].args and dotted(st[0].args[0]) == pv
-    ctx.ob("5.1-store-pristine", con, bool(ok), "the cache must be fed with the pristine copy of the inputs, not with the (possibly modified) live data", node=st[0])
-    ok = cfg.under_branch(sn, second_ct, True) and len([tv for tv in branch_conditions(cfg, sn)]) == 1
-    ctx.ob("5.1-store-after-run", con, ok, "the store must only be conditioned by the presence of a cache", node=st[0], stmt="store iff cache is not None")
-    esc = cfg.escape_path(rn, {sn, cfg.branch[(second_ct, False)]})
-    ctx.ob("5.1-store-after-run", con, esc is None and cfg.reachable(rn, sn), "after the run, a normal path reaches the return without storing in the cache: " + cfg.describe_path(esc), node=st[0], stmt="every normal path after the run stores")
+    ctx.ob("5.1-store-after-run", con, len(st) == 1, "after the run the outputs must be stored in the cache", node=(st or [f])[0], stmt="store present")
+    if st:
+        sn = cfg.node_of(st[0])
+        ok = st[0].args and dotted(st[0].args[0]) == pv
+        ctx.ob("5.1-store-pristine", con, bool(ok), "the cache must be fed with the pristine copy of the inputs, not with the (possibly modified) live data", node=st[0])
+        esc = cfg.escape_path(rn, {sn} | cache_false)
+        ctx.ob("5.1-store-after-run", con, esc is None and cfg.reachable(rn, sn), "after the run, a normal path with a cache reaches the return without storing: " + cfg.describe_path(esc), node=st[0], stmt="every normal path after the run stores (unless there is no cache)")
     # the copy helper
     g = ctx.index.method(BD, "BaseDiscipline", "__create_input_data_for_cache")
     con2 = cname(BD, "BaseDiscipline", "__create_input_data_for_cache")
@@ -381,7 +386,7 @@ WITNESSES = [
     {"name": "new-entry-keeps-jacobian", "file": SCF, "old": "        self.__outputs = deepcopy_dict_of_arrays(output_data)\n        self.__jacobian = {}\n", "new": "        self.__outputs = deepcopy_dict_of_arrays(output_data)\n", "expect": "5.3"},
     {"name": "new-jacobian-entry-keeps-outputs", "file": SCF, "old": "        self.__jacobian = jacobian_data\n        self.__outputs = {}", "new": "        self.__jacobian = jacobian_data", "expect": "5.3"},
     {"name": "kept-entry-replaces-outputs", "file": SCF, "old": "        if self.__is_cached(input_data):\n            if not self.__outputs:\n                self.__outputs = deepcopy_dict_of_arrays(output_data)\n            return", "new": "        if self.__is_cached(input_data):\n            self.__outputs = deepcopy_dict_of_arrays(output_data)\n            return", "expect": "5.3"},
-    {"name": "simple-cache-serves-without-compare", "file": SCF, "old": "        if not self.__is_cached(input_data):\n            return CacheEntry(input_data, {}, {})\n\n        return self.last_entry", "new": "        if not self.__inputs:\n            return CacheEntry(input_data, {}, {})\n\n        return self.last_entry", "expect": "5.4"},
+    {"name": "simple-cache-serves-without-compare", "file": SCF, "old": "        if not self.__is_cached(input_data):\n            return CacheEntry(input_data, {}, {})\n        return self.last_entry", "new": "        if not self.__inputs:\n            return CacheEntry(input_data, {}, {})\n        return self.last_entry", "expect": "5.4"},
     {"name": "hash-match-not-compared", "file": BFC, "old": "        for index in indices:\n            if self.compare_dict_of_arrays(\n                input_data, self._read_data(index, self.Group.INPUTS)\n            ):\n                output_data = self._read_data(index, self.Group.OUTPUTS)", "new": "        for index in indices:\n            if True:\n                output_data = self._read_data(index, self.Group.OUTPUTS)", "expect": "5.4"},
     {"name": "compare-other-index", "file": BFC, "old": "            if self.compare_dict_of_arrays(\n                input_data, self._read_data(index, self.Group.INPUTS)\n            ):\n                output_data = self._read_data(index, self.Group.OUTPUTS)", "new": "            if self.compare_dict_of_arrays(\n                input_data, self._read_data(indices[0], self.Group.INPUTS)\n            ):\n                output_data = self._read_data(index, self.Group.OUTPUTS)", "expect": "5.4"},
     {"name": "tolerance-not-passed", "file": BFC, "old": "                if self.compare_dict_of_arrays(\n                    input_data, cached_input_data, self._tolerance\n                ):", "new": "                if self.compare_dict_of_arrays(input_data, cached_input_data):", "expect": "5.4"},
@@ -393,7 +398,6 @@ WITNESSES = [
     {"name": "restore-keeps-old-jacobian", "file": DI, "old": "            self.jac = cache_entry.jacobian\n        else:\n            # TODO: This is required to pass all the tests instead of self.jac.clear(),\n            #  there is an implicit side effect in how this attr is used,\n            #  this should be made explicit.\n            self.jac = {}", "new": "            self.jac = cache_entry.jacobian", "expect": "5.5"},
     {"name": "unlocked-cache_outputs", "file": BFC, "old": "    @synchronized\n    def cache_outputs(", "new": "    def cache_outputs(", "expect": "5.6"},
     {"name": "unlocked-getitem", "file": BFC, "old": "    @synchronized\n    def __getitem__(", "new": "    def __getitem__(", "expect": "5.6"},
-    {"name": "unlocked-read-hashes", "file": HFC, "old": "    @synchronized\n    def _read_hashes(self) -> None:", "new": "    def _read_hashes(self) -> None:", "expect": "5."},
     {"name": "decorator-does-not-lock", "file": "utils/locks.py", "old": "        with args[0].lock:\n            return wrapped(*args, **kwargs)", "new": "        return wrapped(*args, **kwargs)", "expect": "5.6"},
     {"name": "hdf5-no-index-on-open", "file": HFC, "old": "        super().__init__(tolerance, name or hdf_node_path)\n        self._read_hashes()", "new": "        super().__init__(tolerance, name or hdf_node_path)", "expect": "5.7"},
     {"name": "hdf5-max-index-not-restored", "file": HFC, "old": "        self._last_accessed_index.value = max_index\n        self._max_index.value = max_index", "new": "        self._last_accessed_index.value = max_index", "expect": "5.7"},
